@@ -3,6 +3,7 @@
 #include "psc/error.h"
 #include "nodes/loop/control.h"
 #include "nodes/loop/repeatUntil.h"
+#include "verif_hook.h"
 
 RepeatUntilNode::RepeatUntilNode(const Token &token, Node &condition, PSC::Block &block)
     : UnaryNode(token, condition), block(block)
@@ -10,6 +11,9 @@ RepeatUntilNode::RepeatUntilNode(const Token &token, Node &condition, PSC::Block
 
 std::unique_ptr<NodeResult> RepeatUntilNode::evaluate(PSC::Context &ctx) {
     while (true) {
+#ifdef PSEUDOENGINE2_VERIF
+        if (verif::step()) throw PSC::RuntimeError(token, ctx, "VERIF budget exhausted: steps");
+#endif
         try {
             block.run(ctx);
         } catch (BreakErrSignal&) {
